@@ -104,7 +104,10 @@ def crossratio(
         raise TypeError(f"Unsupported combination of types: a: {type(a)}, b: {type(b)}, c: {type(c)}, d: {type(d)}")
 
     if a.dim > 2 or (from_point is None and a.dim == 2):
-        if not np.all(is_collinear(a, b, c, d)):
+        # four points are collinear if their coordinate vectors span a space of dimension 2 (in more than two
+        # dimensions is_collinear only tests for a common hyperplane)
+        m = np.stack(np.broadcast_arrays(a.array, b.array, c.array, d.array), axis=-2)
+        if not np.all(np.linalg.matrix_rank(m, tol=EQ_TOL_ABS) <= 2):
             raise NotCollinear("The points are not collinear: " + str([a, b, c, d]))
 
         basis = np.stack([a.array, b.array], axis=-2)
